@@ -86,9 +86,13 @@ fn targets_case(ctx: &mut CaseCtx) -> CaseResult {
     let sink = Recorder::default();
     let a = Recorder::default();
     let with_writers = rng.chance(3, 4);
-    let primary = rng.below(3);
+    let primary = rng.below(4);
+    // the memory buffer keeps the newest lines up to a byte limit; limits below, around and
+    // above the line lengths
+    let buffer_limit = *rng.pick(&[0usize, 1, 16, 64, 200, 10_000]);
     let mut lg = Logger::with(LogSpecification::trace()).error_channel(flw::error_channel());
     lg = match primary {
+        3 => lg.log_to_buffer(buffer_limit, Some(flw::fmt_raw)),
         0 => lg.log_to_writer(Box::new(RecWriter {
             rec: sink.clone(),
             ceiling: LevelFilter::Trace,
@@ -133,6 +137,7 @@ fn targets_case(ctx: &mut CaseCtx) -> CaseResult {
         }
         return res;
     };
+    let boxed: std::sync::Arc<Box<dyn log::Log>> = std::sync::Arc::new(boxed);
     let n = rng.range(5, 40);
     let mut calls = 0u64;
     for _ in 0..n {
@@ -170,15 +175,89 @@ fn targets_case(ctx: &mut CaseCtx) -> CaseResult {
             break;
         }
     }
+    if primary == 3 && res.verdict == Verdict::Held {
+        // lines shorter and longer than the limit in turn, on a thread of their own: a log call
+        // that does not come back is a hang, not something to wait for
+        let lens: Vec<usize> = (0..rng.range(3, 12))
+            .map(|_| match rng.below(4) {
+                0 => buffer_limit + 1 + rng.usize(40),
+                1 => buffer_limit.saturating_sub(rng.usize(8)),
+                _ => rng.usize(buffer_limit.min(60) + 2),
+            })
+            .collect();
+        let (tx, rx) = std::sync::mpsc::channel::<usize>();
+        let lens2 = lens.clone();
+        let vt = std::sync::Arc::clone(&boxed);
+        let worker = std::thread::Builder::new()
+            .name("flmon-case-buffer".into())
+            .spawn(move || {
+                for (i, l) in lens2.iter().enumerate() {
+                    let m = "b".repeat(*l);
+                    flw::with_record(log::Level::Info, "flmon::buf", &m, |r| vt.log(r));
+                    let _ = tx.send(i);
+                }
+            })
+            .expect("spawn");
+        let mut done = 0usize;
+        let mut hung = false;
+        while done < lens.len() {
+            match rx.recv_timeout(std::time::Duration::from_secs(10)) {
+                Ok(_) => done += 1,
+                Err(_) => {
+                    // generous second chance before the verdict
+                    match rx.recv_timeout(std::time::Duration::from_secs(30)) {
+                        Ok(_) => done += 1,
+                        Err(_) => {
+                            hung = true;
+                            break;
+                        }
+                    }
+                }
+            }
+        }
+        calls += done as u64;
+        if hung {
+            res.violate(
+                "hang",
+                "C10/hang/buffer-writer/log-call",
+                format!(
+                    "memory buffer with limit {buffer_limit}: line lengths {lens:?}; the log call of line {done} did not return within 40 s"
+                ),
+            );
+            // the stuck thread keeps its references: leak them on purpose
+            std::mem::forget(worker);
+            std::mem::forget(handle);
+            res.nontrivial = true;
+            res.shape = "targets|primary3|hang".into();
+            return res;
+        }
+        let _ = worker.join();
+        let panics = util::take_panics();
+        if let Some(p) = panics.iter().find(|p| util::in_repo_file(&p.file)) {
+            res.violate(
+                "panic",
+                format!("C10/panic/{}/{}", util::repo_rel(&p.file), util::normalise_msg(&p.message)),
+                format!("memory buffer with limit {buffer_limit}, line lengths {lens:?}: panic at {}: {}", p.location, p.message),
+            );
+        }
+    }
     // logging continues: a sentinel through the default channel
     let sentinel = flw::msg_id(ctx.case, 9, 0, 8);
     guarded(&mut res, "sentinel log call", || {
         flw::with_record(log::Level::Error, "flmon::sentinel", &sentinel, |r| boxed.log(r));
     });
     guarded(&mut res, "flush", || handle.flush());
+    let mut snapshot = flexi_logger::Snapshot::new();
+    if primary == 3 {
+        guarded(&mut res, "update_snapshot", || {
+            let _ = handle.update_snapshot(&mut snapshot);
+        });
+    }
     guarded(&mut res, "shutdown", || handle.shutdown());
     if res.verdict == Verdict::Held {
         let found = match primary {
+            // the newest line is always kept, whatever the limit
+            3 => snapshot.text.contains(&sentinel),
             0 => sink.take().iter().any(|r| r.msg == sentinel),
             1 => std::fs::read_to_string(ctx.dir.join("t").join("t.log"))
                 .unwrap_or_default()
